@@ -131,6 +131,14 @@ def c05_3(ctx):
     fn = ctx.repo.fn('_drange:Calendar.add')
     days = fn.params[2]
     ifs = [s for s in fn.body if isinstance(s, ast.If) and 'abs(%s)' % days in U(s.test)]
+    if not ifs:
+        # the split between the table path and the single-step loop, whatever it tests now
+        alt = [s for s in fn.body if isinstance(s, ast.If) and days in names_in(s.test) and ('int2dt' in U(ast.Module(s.body, [])) or 'int2dt' in U(ast.Module(else_of(s), [])))]
+        if alt:
+            ctx.count(1, fn.where(alt[0]))
+            ctx.fail(fn, alt[0], 'the table/loop split tests `%s` instead of the magnitude abs(%s): the single-step loop then also serves counts below -1 (or above 1), for which it jumps that many calendar days at a time' % (U(alt[0].test), days),
+                     witness='cal.add(monday, -3)')
+            return
     ctx.need(len(ifs) == 1, 'threshold test on abs(%s) not found in Calendar.add' % days)
     t = canon(ifs[0].test)
     ctx.count(1, fn.where(ifs[0]))
